@@ -74,7 +74,7 @@ def suitable_description(fmt, slot, rng):
             force = "layered"
         elif slot.name.startswith("variant.release"):
             force = "layered-product-variant"
-        elif slot.name == "variant.child-arch-outside-parent":
+        elif slot.name in ("variant.child-arch-outside-parent", "variant.child-uid-differs-in-dashes-only"):
             force = "depth-3"
         elif slot.name == "variant.deep-child-arch-of-top-not-parent":
             force = "depth-3-narrowing"
@@ -83,7 +83,7 @@ def suitable_description(fmt, slot, rng):
     if fmt == "treeinfo":
         if slot.name.startswith("base_product"):
             force = "layered"
-        elif slot.name == "variant.uid-misaligned":
+        elif slot.name in ("variant.uid-misaligned", "variant.child-uid-differs-in-dashes-only"):
             force = "depth-3"
         elif slot.name == "images.absolute-path":
             force = "images"
